@@ -399,7 +399,12 @@ def gen_adf15(rng, fmt, nblocks=None, nd=None, nt=None, isel_base=0, ncfg=None, 
                 break
         n_d = nd or rng.choice([1, 2, 7, 8, 9, 16, 17, 24])
         n_t = nt or rng.choice([1, 3, 8, 9, 12, 16, 17, 30])
-        wl = "%d.%d" % (rng.randint(100, 9999), rng.randint(0, 9))
+        # wavelength token in Angstrom: 3-4 integer digits and 1..4 decimals (at most 8 characters, the width of the block
+        # header field), as real ADF15 indices quote them (6561.9, 1215.6701, 33.7342): a conversion that keeps only some of
+        # the decimals must differ from token/10 by far more than the tolerance of the executable property
+        _wi = rng.randint(100, 9999)
+        _nd = rng.choice([1, 1, 2, 3, 4]) if _wi < 1000 else rng.choice([1, 1, 2, 3, 3])
+        wl = "%d.%s%d" % (_wi, "".join(str(rng.randint(0, 9)) for _ in range(_nd - 1)), rng.randint(1, 9) if _nd > 1 else rng.randint(0, 9))
         b = {"isel": isels[k], "wl": wl, "type": typ, "upper": up, "lower": lo,
              "dens": increasing(rng, n_d, lambda: tok_e82(rng, 8, 15)),
              "temps": increasing(rng, n_t, lambda: tok_e82(rng, -1, 4))}
